@@ -136,7 +136,7 @@ def coupling_work(chunk):
     from numdifftools.step_generators import MinStepGenerator, MaxStepGenerator
     acc = fw.Acc()
     for method, n, order in chunk:
-        FD_RULES.clear()
+        fw.fresh_library_state()
         case = ('coupling', method, n, order)
         rule = LogRule(n=n, method=method, order=order)
         mo = rule.method_order
